@@ -30,7 +30,7 @@ ASSUMPTIONS = [
     'a zero-length ISO SDU producing no packet is counted, not judged (the statement speaks of emitted fragments)',
 ]
 MIN_EVENTS = {
-    'quick': {'fragments_checked': 10000, 'pdus_delivered': 1500, 'malformed_injected': 300, 'iso_fragments': 3000,
+    'quick': {'fragments_checked': 10000, 'pdus_delivered': 1500, 'malformed_injected': 300, 'iso_fragments': 2000,
               'max_size_pdus': 8},
     'thorough': {'fragments_checked': 200000, 'pdus_delivered': 12000, 'malformed_injected': 6000,
                  'iso_fragments': 60000, 'max_size_pdus': 80},
@@ -48,7 +48,7 @@ def plan(tier, seed):
         cases.append({'kind': 'xfer', 'seed': seed * 1000003 + i, 'big': i % 20 == 0, 'tier': tier})
     for i in range(240 if tier == 'quick' else 3600):
         cases.append({'kind': 'malformed', 'seed': seed * 1000003 + i})
-    for i in range(24 if tier == 'quick' else 480):
+    for i in range(160 if tier == 'quick' else 1600):
         cases.append({'kind': 'iso', 'seed': seed * 1000003 + i})
     return cases
 
